@@ -1142,7 +1142,11 @@ def check(src, rep, tier):
     # the premise of the comparison: a version that is valid by the Policy grammar can be constructed (C14.R1, the direction
     # valid ⊆ accepted; what else the constructor accepts is C14's business)
     from . import C14
-    rep.guard('C03.R7', C14.r1_accepted_set, src, 'C03.R7', True)
+    from . import common
+    n_v, n_e = len(rep.violations), len(rep.errors)
+    rep.guard('C03.R7', C14.r4_family, src, tier, 'C03.R7', ('rej',))
+    fam_holds = len(rep.violations) == n_v and len(rep.errors) == n_e
+    common.SoftErrors(rep, lambda: fam_holds, 'the interpreted family of version strings, which holds').guard('C03.R7', C14.r1_accepted_set, src, 'C03.R7', True)
     rep.guard('C03.R1', r1_operators, src)
     rep.guard('C03.R2', r2_compare, src)
     rep.guard('C03.R3', r3_string_compare, src)
